@@ -455,6 +455,55 @@ func (c *Ctx) checkCopyPos(r *Report, rule string, t *rrType) {
 		return
 	}
 	e := ast.Unparen(ret.Results[0])
+	var crossFill []string
+	if id, isId := e.(*ast.Ident); isId {
+		// c := &T{...}; for i, e := range rr.F { c.F[i] = e.copy() }; return c — the literal the variable is made
+		// from, once, at the top level; what is filled in afterwards goes into the field it is ranged from
+		o := c.Info.Uses[id]
+		var def ast.Expr
+		nDef := 0
+		for _, s := range fd.Body.List {
+			switch st := s.(type) {
+			case *ast.AssignStmt:
+				for i, l := range st.Lhs {
+					if lid, ok := l.(*ast.Ident); ok && (c.Info.Defs[lid] == o || c.Info.Uses[lid] == o) && o != nil {
+						nDef++
+						if len(st.Lhs) == len(st.Rhs) {
+							def = st.Rhs[i]
+						}
+					}
+				}
+			case *ast.RangeStmt:
+				from := map[*types.Var]bool{}
+				mentions(st.X, from)
+				ast.Inspect(st.Body, func(n ast.Node) bool {
+					as, ok := n.(*ast.AssignStmt)
+					if !ok {
+						return true
+					}
+					for _, l := range as.Lhs {
+						base := ast.Unparen(l)
+						if ix, ok := base.(*ast.IndexExpr); ok {
+							base = ast.Unparen(ix.X)
+						}
+						if sel, ok := base.(*ast.SelectorExpr); ok && c.isIdentOf(sel.X, o) {
+							if f := c.fieldOf(sel); f != nil && (len(from) != 1 || !from[f]) {
+								var names []string
+								for k := range from {
+									names = append(names, k.Name())
+								}
+								crossFill = append(crossFill, fmt.Sprintf("field %s of the copy is filled from a loop over [%s]", f.Name(), strings.Join(names, ",")))
+							}
+						}
+					}
+					return true
+				})
+			}
+		}
+		if nDef == 1 && def != nil {
+			e = ast.Unparen(def)
+		}
+	}
 	if u, ok := e.(*ast.UnaryExpr); ok && u.Op == token.AND {
 		e = ast.Unparen(u.X)
 	}
@@ -467,7 +516,7 @@ func (c *Ctx) checkCopyPos(r *Report, rule string, t *rrType) {
 		r.fail(rule, t.Name, pos, "copy returns a %s", typeStr(c.Info.TypeOf(lit)))
 		return
 	}
-	var problems []string
+	problems := crossFill
 	if t.Embeds != "" {
 		// &HTTPS{*rr.SVCB.copy().(*SVCB)}
 		if len(lit.Elts) != 1 {
